@@ -12,11 +12,25 @@ straight run starting at its cell can have at all: n >= 2 (a run containing the 
 two cells; value 1 is self-contradictory) and n <= the number of cells between the circle and the board edge in at least
 one of the four directions, the circle included (a larger value is contradicted by the board itself).  Other layouts are
 not generated.  The empty white set counts as connected.
+
+Two enumerators: candidates() + filter walks all 2^(h*w) colourings (boards up to 16 cells); search() assigns the cells one
+by one and gives up a branch as soon as a circle would be black, a 2x2 block is of one colour, the white cells have two
+components of which one can no longer grow, or a cell whose four neighbours are all assigned breaks the cape rule (numbers
+are compared when the whole grid is assigned) - consequences of the rules above only; selftest() compares both on every board
+up to 16 cells.  readings() uses search() beyond 16 cells.
+
+Shape ("large", h, w): the clue-free board, and dense instances derived from rule-obeying grids G with capes (seeds():
+evenly spaced ones, the one with the longest cape run, the one with most capes): G's complete clue set = a numbered circle on
+every cape, the same without numbers / numbered alternately, all minus every k-th circle, one number +1 / -1 (first, last,
+middle circle; only values the well-formedness rule admits), the circles of the last row / last column only, one more
+circle in the far corner.
 """
 
 from . import base
 
 _CAND = {}
+_FREE = {}
+SMALL = 16  # boards up to this many cells are enumerated by candidates()
 DIRS = ((-1, 0), (1, 0), (0, -1), (0, 1))
 
 
@@ -56,23 +70,277 @@ def well_formed(h, w, cells):
     return True
 
 
+class _Enough(Exception):
+    pass
+
+
+def _search_tall(h, w, circ, num, limit, descending):
+    """All is_white bit masks (bit y*w+x) of the h x w board: circ = mask of circled cells, num = {cell: n} for numbered
+    circles; in lexicographic order of the cells (black < white; descending: the reverse), at most `limit` of them."""
+    n = h * w
+    full = (1 << n) - 1
+    notl = full & ~sum(1 << (y * w) for y in range(h))
+    notr = full & ~sum(1 << (y * w + w - 1) for y in range(h))
+    opn = []  # cells that still have an unassigned neighbour once cells 0..i are assigned
+    for i in range(n):
+        m = 0
+        for k in range(max(0, i - w + 1), i + 1):
+            if k + w < n:
+                m |= 1 << k
+        if i % w < w - 1:
+            m |= 1 << i
+        opn.append(m)
+    sq = [None] * n
+    for y in range(1, h):
+        for x in range(1, w):
+            i = y * w + x
+            sq[i] = (1 << i) | (1 << (i - 1)) | (1 << (i - w)) | (1 << (i - w - 1))
+    nbm = [0] * n
+    for y in range(h):
+        for x in range(w):
+            for dy, dx in DIRS:
+                if 0 <= y + dy < h and 0 <= x + dx < w:
+                    nbm[y * w + x] |= 1 << ((y + dy) * w + x + dx)
+    # cells whose neighbours are all assigned once cells 0..i are
+    complete = []
+    for i in range(n):
+        c = []
+        if i >= w:
+            c.append(i - w)
+        if i >= n - w:
+            if i % w > 0:
+                c.append(i - 1)
+            if i % w == w - 1:
+                c.append(i)
+        complete.append(c)
+
+    def flood(seed, mask):
+        while True:
+            nxt = (seed | ((seed << 1) & notl) | ((seed >> 1) & notr) | (seed << w) | (seed >> w)) & mask
+            if nxt == seed:
+                return seed
+            seed = nxt
+
+    def may_connect(cells, still_open):
+        if cells == 0:
+            return True
+        if flood(cells & -cells, cells) == cells:
+            return True
+        rest = cells
+        while rest:
+            comp = flood(rest & -rest, rest)
+            if not comp & still_open:
+                return False
+            rest &= ~comp
+        return True
+
+    def numbers_ok(white):
+        for k, want in num.items():
+            d = white & nbm[k]  # exactly one bit (cape rule already checked)
+            step = d.bit_length() - 1 - k
+            y, x = divmod(k, w)
+            dy, dx = (step // w, 0) if step in (w, -w) else (0, step)
+            run = 1
+            y, x = y + dy, x + dx
+            while 0 <= y < h and 0 <= x < w and white >> (y * w + x) & 1:
+                run += 1
+                y, x = y + dy, x + dx
+            if run != want:
+                return False
+        return True
+
+    def run_may_fit(white, k, i):
+        """The run of the complete cape k, as far as cells 0..i tell: False when it is already too long or ends too early."""
+        d = white & nbm[k]
+        step = d.bit_length() - 1 - k
+        y, x = divmod(k, w)
+        dy, dx = (step // w, 0) if step in (w, -w) else (0, step)
+        run = 1
+        y, x = y + dy, x + dx
+        while 0 <= y < h and 0 <= x < w:
+            c = y * w + x
+            if c > i:
+                return run <= num[k]
+            if not white >> c & 1:
+                break
+            run += 1
+            y, x = y + dy, x + dx
+        return run == num[k]
+
+    out = []
+    values = (1, 0) if descending else (0, 1)
+
+    def rec(i, white):
+        if i == n:
+            if numbers_ok(white):
+                out.append(white)
+                if limit is not None and len(out) >= limit:
+                    raise _Enough()
+            return
+        for v in values:
+            if not v and circ >> i & 1:
+                continue
+            nw = white | (v << i)
+            q = sq[i]
+            if q is not None:
+                t = nw & q
+                if t == q or t == 0:
+                    continue
+            bad = False
+            for k in complete[i]:
+                if nw >> k & 1:
+                    one = bin(nw & nbm[k]).count("1") == 1
+                    if one != bool(circ >> k & 1) or (one and k in num and not run_may_fit(nw, k, i)):
+                        bad = True
+                        break
+            if bad:
+                continue
+            if not may_connect(nw, opn[i] if i < n - 1 else 0):
+                continue
+            rec(i + 1, nw)
+
+    try:
+        rec(0, 0)
+    except _Enough:
+        pass
+    return out
+
+
+def search(h, w, prob=None, limit=None, descending=False):
+    """All is_white tuples (row-major) obeying the rules with the circles of prob (None: no circle), by pruned search
+    (limit: only the first so many of the search order; descending: of the reverse order)."""
+    cells = [-1] * (h * w) if prob is None else [c for row in prob for c in row]
+    # internal board: at least as tall as wide, circles rather near its first rows; (Y, X) inside is at(Y, X) outside
+    ih, iw = (h, w) if w <= h else (w, h)
+    at = (lambda Y, X: (Y, X)) if w <= h else (lambda Y, X: (X, Y))
+    rows = [sum(1 for X in range(iw) if cells[at(Y, X)[0] * w + at(Y, X)[1]] != -1) for Y in range(ih)]
+    if sum(c * (2 * Y - (ih - 1)) for Y, c in enumerate(rows)) > 0:
+        at = (lambda f: (lambda Y, X: f(ih - 1 - Y, X)))(at)
+    real = [at(Y, X)[0] * w + at(Y, X)[1] for Y in range(ih) for X in range(iw)]
+    pos = [0] * (h * w)
+    for k, r in enumerate(real):
+        pos[r] = k
+    circ = sum(1 << k for k, r in enumerate(real) if cells[r] != -1)
+    num = {k: cells[r] for k, r in enumerate(real) if cells[r] > 0}
+    return [tuple(bool(m >> pos[r] & 1) for r in range(h * w)) for m in _search_tall(ih, iw, circ, num, limit, descending)]
+
+
+def free(h, w):
+    if (h, w) not in _FREE:
+        _FREE[(h, w)] = search(h, w)
+    return _FREE[(h, w)]
+
+
+def seeds(h, w):
+    """Grids with capes, the source of the dense instances: for every pair out of eight landmark cells (corners, middles of
+    the sides, centre), every four of them, and every 3, 5, 6 out of the first six, the first and the last grid (search
+    order) whose capes are exactly those cells."""
+    import itertools
+
+    n = h * w
+    marks = sorted(set([0, w - 1, n - w, n - 1, w // 2, n - w + w // 2, (h // 2) * w + w - 1, (h // 2) * w + w // 2]))
+    out = []
+    for k in (2, 3, 4, 5, 6):
+        for pos in itertools.combinations(marks if k in (2, 4) else marks[:6], k):
+            prob = base.grid([0 if c in pos else -1 for c in range(n)], h, w)
+            for desc in (False, True):
+                for g in search(h, w, prob, limit=1, descending=desc):
+                    if g not in out:
+                        out.append(g)
+    return out
+
+
+def implied_clues(h, w, g):
+    """The complete clue set of the is_white grid g: {cell index: run length} for every cape."""
+    out = {}
+    for y in range(h):
+        for x in range(w):
+            if not g[y * w + x]:
+                continue
+            nb = [(dy, dx) for dy, dx in DIRS if 0 <= y + dy < h and 0 <= x + dx < w and g[(y + dy) * w + x + dx]]
+            if len(nb) != 1:
+                continue
+            dy, dx = nb[0]
+            run = 1
+            cy, cx = y + dy, x + dx
+            while 0 <= cy < h and 0 <= cx < w and g[cy * w + cx]:
+                run += 1
+                cy, cx = cy + dy, cx + dx
+            out[y * w + x] = run
+    return out
+
+
+def pick(seq, k):
+    """k evenly spaced elements of seq, first and last included (all of seq when it has at most k elements)."""
+    if len(seq) <= k:
+        return list(seq)
+    return [seq[(len(seq) - 1) * j // (k - 1)] for j in range(k)]
+
+
 class Nurimisaki(base.Rule):
     name = "nurimisaki"
 
     def shapes(self, tier):
         s = [(1, 1), (1, 2), (2, 1), (1, 3), (3, 1), (2, 2), (2, 3), (3, 2), (3, 3)]
+        large = [("large", 5, 5), ("large", 6, 5), ("large", 5, 6), ("large", 6, 6), ("large", 2, 10), ("large", 10, 2), ("large", 1, 12), ("large", 12, 1)]
         if tier == "quick":
-            return s + [(3, 4), (4, 3)]
-        return s + [(1, 4), (4, 1), (1, 5), (5, 1), (2, 4), (4, 2), (3, 4), (4, 3), (2, 5), (5, 2), (4, 4)]
+            return s + [(3, 4), (4, 3)] + large
+        large += [("large", 3, 8), ("large", 8, 3), ("large", 4, 8), ("large", 8, 4), ("large", 1, 15), ("large", 15, 1)]
+        large += [("large", 6, 7), ("large", 7, 6)]  # the largest boards: up to 7 s per instance
+        return s + [(1, 4), (4, 1), (1, 5), (5, 1), (2, 4), (4, 2), (3, 4), (4, 3), (2, 5), (5, 2), (4, 4)] + large
 
     def instances(self, shape, cap):
         """Cap rule over -1 | 0 2 3 (and 4 when cap > 1000); ill-formed layouts (see module doc) are dropped after the cap
-        rule has fixed k."""
+        rule has fixed k.  Shape ("large", h, w): see the module doc (cap <= 1000 selects the short quick-tier list)."""
+        if shape[0] == "large":
+            for cells in self.large_layouts(shape[1], shape[2], cap <= 1000):
+                assert well_formed(shape[1], shape[2], cells)
+                yield {"height": shape[1], "width": shape[2], "problem": base.grid(cells, shape[1], shape[2])}
+            return
         h, w = shape
         alphabet = [0, 2, 3] if cap <= 1000 else [0, 2, 3, 4]
         lays, k = base.layouts(h * w, -1, alphabet, cap, admissible=lambda cells: well_formed(h, w, cells))
         for cells in lays:
             yield {"height": h, "width": w, "problem": base.grid(cells, h, w)}
+
+    def large_layouts(self, h, w, quick):
+        n = h * w
+        out = [[-1] * n]
+        sd = seeds(h, w)
+        if not sd:
+            return out
+        clue = [implied_clues(h, w, g) for g in sd]
+        gs = pick(list(range(len(sd))), 2 if quick else 3)
+        gs.append(max(range(len(sd)), key=lambda j: (max(clue[j].values()), -j)))  # longest run
+        gs.append(max(range(len(sd)), key=lambda j: (len(clue[j]), -j)))  # most capes
+        for gi, j in enumerate(gs):
+            cl = clue[j]
+            cs = sorted(cl)
+            var = {}
+            var["full"] = dict(cl)
+            var["plain"] = {c: 0 for c in cs}
+            var["mixed"] = {c: (cl[c] if t % 2 == 0 else 0) for t, c in enumerate(cs)}
+            var["minus2"] = {c: cl[c] for t, c in enumerate(cs) if t % 2 == 0}
+            var["minus3"] = {c: cl[c] for t, c in enumerate(cs) if t % 3 != 2}
+            var["minusfirst"] = {c: cl[c] for c in cs[1:]}
+            for name, t in (("first", 0), ("last", len(cs) - 1), ("mid", len(cs) // 2)):
+                for d in (1, -1):
+                    v = dict(cl)
+                    v[cs[t]] += d
+                    var["%s%+d" % (name, d)] = v
+            var["lastrow"] = {c: cl[c] for c in cs if c >= n - w}
+            var["lastcol"] = {c: cl[c] for c in cs if c % w == w - 1}
+            var["corner"] = dict(cl)
+            var["corner"].setdefault(n - 1, 0)
+            if quick:  # every kind of variant about once, spread over the grids G
+                names = (["full", "last-1", "lastrow"], ["minus2", "mid-1", "lastcol"], ["full", "first-1", "plain"], ["full", "minus3", "mixed"])[gi][: 3 if n > 20 else 2]
+            else:
+                names = list(var)
+            for k in names:
+                cells = [var[k].get(c, -1) for c in range(n)]
+                if cells not in out and well_formed(h, w, cells):
+                    out.append(cells)
+        return out
 
     def call(self, p):
         from cspuz.puzzle import nurimisaki
@@ -81,6 +349,12 @@ class Nurimisaki(base.Rule):
         return is_sat, base.sols_of(is_white)
 
     def readings(self, p):
+        h, w = p["height"], p["width"]
+        if h * w > SMALL:
+            return [search(h, w, p["problem"]) if any(c != -1 for row in p["problem"] for c in row) else free(h, w)]
+        return [self.filtered(p)]
+
+    def filtered(self, p):
         h, w = p["height"], p["width"]
         prob = p["problem"]
         out = []
@@ -110,7 +384,7 @@ class Nurimisaki(base.Rule):
                     break
             if ok:
                 out.append(col)
-        return [out]
+        return out
 
     def example(self):
         prob = [
@@ -120,6 +394,35 @@ class Nurimisaki(base.Rule):
             [-1, -1, -1, -1, 3, -1, -1, -1, -1, -1],
         ]
         return {"height": 10, "width": 10, "problem": prob}, "cspuz/puzzle/nurimisaki.py _main() (twitter.com/semiexp/status/1168898897424633856)"
+
+
+def selftest():
+    """search() against the filter of all colourings on every board up to 16 cells: clue-free, every layout with one or two
+    circles over 0 2 3 (every third layout on boards of more than 9 cells), and dense layouts derived from seeds()."""
+    import itertools
+
+    r = Nurimisaki()
+    checked = 0
+    for h, w in [(h, w) for h in range(1, 17) for w in range(1, 17) if h * w <= SMALL]:
+        n = h * w
+        lays = [[-1] * n]
+        for k in (1, 2):
+            for pos in itertools.combinations(range(n), k):
+                for vals in itertools.product([0, 2, 3, 4], repeat=k):
+                    cells = [-1] * n
+                    for q, v in zip(pos, vals):
+                        cells[q] = v
+                    lays.append(cells)
+        if n > 9:
+            lays = lays[::3]
+        lays += r.large_layouts(h, w, False)
+        for cells in lays:
+            if not well_formed(h, w, cells):
+                continue
+            p = {"height": h, "width": w, "problem": base.grid(cells, h, w)}
+            assert sorted(search(h, w, p["problem"])) == sorted(r.filtered(p)), p
+            checked += 1
+    return checked
 
 
 RULE = Nurimisaki()
